@@ -41,7 +41,10 @@ pub fn run(args: &Args) {
          through NodeInfo::update_transports on the node's own entry and on a second observer's \
          entry; every 10th chain also through a real AddressBook. Non-trivial = the chain contains \
          a publish with the clock behind or equal to the previous record's wall time; distinct by \
-         (chain, number of such publishes).",
+         (chain, number of such publishes). Third part: the real AddressBookDiscovery::publish over a \
+         real AddressBook, bursts of 2..6 back-to-back publish calls with different endpoint data \
+         (one spawned task each) with the mock clock held / stepped back / stepped forward between \
+         bursts; at quiescence the stored own record must carry the last publish's addresses.",
         50,
     );
     let rt = tokio::runtime::Builder::new_current_thread().enable_all().build().unwrap();
@@ -127,5 +130,7 @@ pub fn run(args: &Args) {
     rep.extra("publishes_clock_behind", json!(by_class[0]));
     rep.extra("publishes_clock_equal", json!(by_class[1]));
     rep.extra("publishes_clock_ahead", json!(by_class[2]));
+    // Real AddressBookDiscovery::publish (hook H7): bursts of concurrent publish tasks.
+    crate::c18b::run_part(args, &mut rep, &rt);
     rep.finish(args);
 }
